@@ -182,6 +182,32 @@ def main():
         build_extras(skip_big=(r != 0))
         del keep
     check('after-allocation-jitter')
+    # (5c) ordinary use of already built definitions (annotating their variants / metadata, as_bytes, add), then
+    #      rebuild; no two live definitions may share a mutable object they own
+    kept = []
+    for name, b in goods:
+        if name != 'big300':
+            try:
+                kept.append(b())
+            except BaseException:   # noqa
+                m.main._current_synthdef = None
+    kept += [sd for sd in (L.build(progs[i], 'k%d' % i)[1] for i in range(0, len(progs), 5)) if sd is not None]
+    alias = X.alias_report(kept, shared_ok=(X.VARIANTS, X.META))
+    use_log = X.use_built_definitions([sd for sd in kept if not (sd.variants is X.VARIANTS)])
+    for i in range(len(progs)):
+        res[i]['bytes'].append(build(i))
+    build_extras()
+    kept2 = []
+    for name, b in goods:
+        if name != 'big300':
+            try:
+                kept2.append(b())
+            except BaseException:   # noqa
+                m.main._current_synthdef = None
+    alias += X.alias_report(kept + kept2, shared_ok=(X.VARIANTS, X.META))
+    if alias:
+        ctxlog.append(['aliasing', alias[:6], None])
+    check('after-use-of-built-definitions')
     # (5b) description reads (SynthDesc.new_from / SynthDef.add / SynthDesc._read_stream) that succeed or fail:
     #      a definition using a UGen class that is not in installed_ugens, truncated and corrupt bytes.
     import io
@@ -261,7 +287,7 @@ def main():
     nested['finished'] = not t.is_alive()
     json.dump({'progs': res, 'ctx': ctxlog, 'base_probe': probe, 'thread_errors': terrs, 'reads': read_log,
                'extras': xres, 'xfails': xfail_log, 'args_before': args_before, 'args_after': X.shared_args_state(),
-               'nested': nested, 'catalogue_bad': L.check_catalogue()}, open(sys.argv[2], 'w'))
+               'use_log': use_log, 'nested': nested, 'catalogue_bad': L.check_catalogue()}, open(sys.argv[2], 'w'))
     sys.stdout.flush()
     os._exit(0)      # RT mode keeps non-daemon threads alive
 
